@@ -42,6 +42,7 @@ def setup(ctx):
     ctx.require("monitor", "l2_client_half_close", 20)
     ctx.require("monitor", "l2_slow_handler_responses", 10)
     ctx.require("monitor", "l2_bounded_pipe", 20)
+    ctx.require("monitor", "l2_other_success_statuses", 20)
     ctx.require("monitor", "static_files_rewritten_while_serving", 12)
     ctx.require("monitor", "static_files_with_special_text", 8)
     ctx.require("backend", "pyopenssl", 10)
@@ -167,8 +168,13 @@ def run_l2(ctx):
                     meta = "text/gemini"
                 mode = ("sync", "async", "sync+client-half-close", "async-slow+late-client-bytes", "async-45s")[(idx + idx // 5) % 5]
 
-                def handler(req, body=body, meta=meta, mode=mode):
-                    r = GeminiResponse(status=20, meta=meta, body=body)
+                # every success status carries its body, not only 20
+                st = 20 if idx % 3 else (21, 22, 25, 29)[(idx // 3) % 4]
+                if st != 20:
+                    ctx.count("monitor", "l2_other_success_statuses")
+
+                def handler(req, body=body, meta=meta, mode=mode, st=st):
+                    r = GeminiResponse(status=st, meta=meta, body=body)
                     if mode.startswith("sync"):
                         return r
 
@@ -222,8 +228,8 @@ def run_l2(ctx):
                         bench.client_send(rng.choice([b"\r\n", b"gemini://localhost/other\r\n", b"x" * 40 + b"\r\n", b"\r\n\r\n"]))
                         ctx.count("monitor", "l2_late_client_bytes_while_answering")
                     bench.finish(peer_closes_after_server=not half_close)
-                    expected = f"20 {meta}\r\n".encode() + exp_body
-                    case = {"backend": backend, "len": n, "btype": btype, "source": "spy-" + mode, "cuts": cuts_kind, "coalesce": coalesce}
+                    expected = f"{st} {meta}\r\n".encode() + exp_body
+                    case = {"backend": backend, "len": n, "btype": btype, "source": "spy-" + mode, "cuts": cuts_kind, "coalesce": coalesce, "status": st}
                     compare(ctx, case, expected, bytes(bench.client_plain), bench.client_eof, "L2")
                     for e in loop.exceptions:
                         ctx.anomaly(f"L2-loop-exception:{e.get('exc_type')}:{backend}")
